@@ -66,12 +66,19 @@ def enumerate_cases(tier):
                     for step in STEPS:
                         yield "1d-monotonic", {"mode": "1d", "labels": labs, "kind": "f" if fl else "i", "step": step, "bounds": bounds}
     # non-monotonic numeric axes: strict rule
-    for perm in itertools.permutations([1, 2, 3, 4]):
+    for base in ([1, 2, 3, 4], [0, 1, 2, 3], [-1, 0, 1]):       # (0 is a label like any other)
+        for perm in itertools.permutations(base):
+            inc, dec = im.monotonic(list(perm))
+            if inc or dec:
+                continue
+            for step in STEPS:
+                yield "1d-nonmonotonic", {"mode": "1d", "labels": list(perm), "kind": "i", "step": step, "bounds": [None] + list(base) + [7]}
+    for perm in itertools.permutations([0.0, -0.5, 1.0]):
         inc, dec = im.monotonic(list(perm))
         if inc or dec:
             continue
         for step in STEPS:
-            yield "1d-nonmonotonic", {"mode": "1d", "labels": list(perm), "kind": "i", "step": step, "bounds": [None, 1, 2, 3, 4, 7]}
+            yield "1d-nonmonotonic", {"mode": "1d", "labels": list(perm), "kind": "f", "step": step, "bounds": [None, 0.0, -0.5, 1.0, 0.25]}
     for perm in itertools.permutations([1.5, 0.5, 2.5]):
         inc, dec = im.monotonic(list(perm))
         if inc or dec:
@@ -79,6 +86,9 @@ def enumerate_cases(tier):
         for step in STEPS:
             yield "1d-nonmonotonic", {"mode": "1d", "labels": list(perm), "kind": "f", "step": step, "bounds": [None, 0.5, 1.5, 2.5, 2.0]}
     # str axes
+    for sub in itertools.permutations(["", "a", "b"]):           # (the empty string is a label like any other)
+        for step in STEPS:
+            yield "1d-str", {"mode": "1d", "labels": list(sub), "kind": "s", "step": step, "bounds": [None] + list(sub) + ["zz"]}
     for r in range(0, 5):
         for sub in itertools.permutations("abcd", r):
             for step in STEPS:
